@@ -204,6 +204,14 @@ Accept(b) ==
           /\ UNCHANGED <<lru, lastProc, pref, inflight, chainG, nver, nacc, nrej, nprerej>>
   /\ UNCHANGED <<static, sync>>
 
+(* StatefulBlock.Accept when the chain index fails to persist the block (UpdateLastAccepted returns an error): *)
+(* Accept returns the error and nothing has happened - the block is still processing, retrievable, its        *)
+(* children can be verified on it and the accept can be retried.                                              *)
+AcceptIndexFails(b) ==
+  /\ EngineCanAccept(b) /\ ~(ready /\ b \notin wv)
+  /\ res' = "err" /\ cc' = <<>> /\ nn' = <<>>
+  /\ UNCHANGED <<static, engine, wrap, caches, ptrs, async, chainG, notif, sync>>
+
 (* async accepter takes the next block: processAccept fetches the parent wrapper, then calls *)
 (* Chain.AcceptBlock(parent.Accepted, b.Output)                                              *)
 Dequeue ==
